@@ -156,10 +156,13 @@ def foreignUp (now : Nat) (f : Foreign) (src : Addr) (dst : Dest) (m : Bvll) : F
   | .origBroadcast _ => (f, [])
   | .unknown => (f, [.warn])
 
-/-- `BIPForeign.register(addr, ttl)`; `ttl <= 0` raises ValueError -/
+/-- `BIPForeign.register(addr, ttl)`; `ttl <= 0` raises ValueError.
+    (after fixes/C13-reregister-after-unregister.patch: a new registration starts
+    unacknowledged, `status := -1`; before it `status` was left alone, so that after
+    `unregister()` — status -2 — every later acknowledgement was ignored) -/
 def foreignRegister (f : Foreign) (a : Addr) (ttl : Int) : Foreign × List Out :=
   if ttl ≤ 0 then (f, [.raised "ValueError"])
-  else ({ f with bbmd := some a, ttl := some ttl.toNat, renewAt := some 0, expireAt := none }, [])
+  else ({ f with status := -1, bbmd := some a, ttl := some ttl.toNat, renewAt := some 0, expireAt := none }, [])
 
 /-- `BIPForeign.unregister()` -/
 def foreignUnregister (f : Foreign) : Foreign × List Out :=
